@@ -32,7 +32,7 @@ META = {
                'cleared before use; on the stated abstract families the Python result does not depend on the selector or on the finder; '
                'both sides produce the same abbreviation for every FORMAT kind, DST shift and LETTER; on the model zones the reference does not depend '
                'on any of its three options and the extended processor reports the reference\'s offset, DST offset and abbreviation at every instant of the family',
-    'not_decided': 'equality of the two complete algorithms on real zone data at every instant (decided on nine model zones at the stated '
+    'not_decided': 'equality of the two complete algorithms on real zone data at every instant (decided on ten model zones and on the shipped zones at the stated '
                    'instants only); option independence outside the abstract families and the model zones.',
     'assumptions': ['clang 14 parser', 'CPython ast', 'date tuples with equal suffix are totally ordered scalars (both sides compare '
                     'the tuple matching the suffix of the match bound)', 'suffix values are exactly w/s/u (C12-R3 + transformer filter)',
@@ -215,7 +215,7 @@ def finder_rule(R, zs):
     from .pyeval import PyEval, PObj, Raised as PRaised
     BASE = 2000
     years = range(0, 4)
-    months = (3, 10, 12) if not thorough else (1, 2, 3, 10, 11, 12)
+    months = (3, 10) if not thorough else (1, 2, 3, 10, 11, 12)
     shapes = [(f, t, m) for f in years for t in years if f <= t for m in months]
     ANCHOR = (-BASE, -BASE, 1)          # the anchor rule the compiler adds: year 0, January 1
     rules1 = [(s,) for s in shapes] + [(ANCHOR,)]
